@@ -33,7 +33,7 @@ func init() {
 
 const c05StallPlan = "sync-write-stalled-in-transport-until-it-is-closed"
 
-var c05Kinds = []string{"user", "user", "user", "in-read", "in-event", "in-exception", "in-active", "read-failure", "sender-failure", "parent-context", "holder", "read-failure-neterr-swallowed"}
+var c05Kinds = []string{"user", "user", "user", "in-read", "in-event", "in-exception", "in-active", "read-failure", "sender-failure", "parent-context", "holder", "read-failure-neterr-swallowed", "read-timeout-unhandled"}
 
 type lifeProbe struct {
 	mu            sync.Mutex
@@ -56,6 +56,7 @@ type lifeProbe struct {
 	client        bool
 	wrapReadErr   bool
 	swallowExc    bool
+	forwardExc    bool // the application has no closing exception handler: exceptions travel on to the built-in tail
 	panicInactive bool
 }
 
@@ -140,10 +141,17 @@ func (p *lifeProbe) HandleEvent(ctx netty.EventContext, ev netty.Event) {
 
 func (p *lifeProbe) HandleException(ctx netty.ExceptionContext, ex netty.Exception) {
 	p.mu.Lock()
-	p.exceptions = append(p.exceptions, ex)
+	if len(p.exceptions) < 1000 {
+		p.exceptions = append(p.exceptions, ex)
+	}
+	fwd := p.forwardExc
 	p.mu.Unlock()
 	if p.swallowExc {
 		return // an application that only logs exceptions
+	}
+	if fwd {
+		ctx.HandleException(ex)
+		return
 	}
 	// like the tail: close with the exception (registered so the winner can be attributed)
 	p.reg.register(ex)
@@ -218,6 +226,19 @@ func c05Trial(c *core.Ctx, id string, idx int) {
 	parent, parentCancel := context.WithCancel(context.Background())
 	defer parentCancel()
 	holder := netty.NewChannelHolder(2)
+	// an application that leaves exceptions to the built-in tail handler (no exception handler of its own): every transport
+	// read then fails with a read-deadline timeout; the tail closes the channel with it
+	for i, kd := range kinds {
+		if kd == "read-timeout-unhandled" {
+			for j := range kinds {
+				if j != i && (kinds[j] == "read-failure" || kinds[j] == "in-exception" || kinds[j] == "read-failure-neterr-swallowed" || kinds[j] == "read-timeout-unhandled") {
+					kinds[j] = "user"
+					errs[j] = fmt.Errorf("close-error-%d-user", j)
+				}
+			}
+			break
+		}
+	}
 	// an application that swallows exceptions cannot also be the one that closes on them
 	for _, kd := range kinds {
 		if kd == "read-failure-neterr-swallowed" {
@@ -233,7 +254,7 @@ func c05Trial(c *core.Ctx, id string, idx int) {
 	used := map[string]bool{}
 	for i, kd := range kinds {
 		switch kd {
-		case "in-read", "in-event", "in-exception", "in-active", "read-failure", "sender-failure", "parent-context", "read-failure-neterr-swallowed":
+		case "in-read", "in-event", "in-exception", "in-active", "read-failure", "sender-failure", "parent-context", "read-failure-neterr-swallowed", "read-timeout-unhandled":
 			if used[kd] {
 				kinds[i] = "user"
 				errs[i] = fmt.Errorf("close-error-%d-user", i)
@@ -251,6 +272,9 @@ func c05Trial(c *core.Ctx, id string, idx int) {
 		case "in-active":
 			probe.errActive = errs[i]
 			probe.closeActive = true
+		case "read-timeout-unhandled":
+			errs[i] = tmoErr{true}
+			probe.forwardExc = true
 		case "read-failure-neterr-swallowed":
 			// a fatal (non-timeout) net.Error from the transport, wrapped by the decoding handler, while the
 			// application's exception handler only logs: the channel itself has to give up
@@ -303,6 +327,14 @@ func c05Trial(c *core.Ctx, id string, idx int) {
 			}
 		}})
 	handoutTick := mon.Tick()
+	if rng.Intn(8) == 0 {
+		// the application serves the channel a second time by mistake: refused (a panic), and nothing else may happen
+		func() {
+			defer func() { recover() }()
+			rig.PL.ServeChannel(rig.Ch)
+		}()
+		c.Count("trials_with_second_serve_channel", 1)
+	}
 	// in-flight traffic
 	var bg sync.WaitGroup
 	stopW := make(chan struct{})
@@ -373,7 +405,7 @@ func c05Trial(c *core.Ctx, id string, idx int) {
 				rig.T.FeedBytes([]byte("p"))
 			case "in-active":
 				// already happened during activation
-			case "read-failure", "read-failure-neterr-swallowed":
+			case "read-failure", "read-failure-neterr-swallowed", "read-timeout-unhandled":
 				rig.T.SetTerminal(o.err)
 			case "sender-failure":
 				rig.T.AddFault(mon.Fault{Kind: mon.OpWritev, K: 0, Err: o.err})
@@ -459,6 +491,18 @@ func c05Trial(c *core.Ctx, id string, idx int) {
 				onlySwallowed = false
 			}
 		}
+		onlyTimeout := len(kinds) > 0
+		for _, kd := range kinds {
+			if kd != "read-timeout-unhandled" {
+				onlyTimeout = false
+			}
+		}
+		if !rig.T.IsClosed() && onlyTimeout {
+			viol("unhandled-read-timeout-did-not-end-the-channel", fmt.Sprintf("every transport read fails with a timeout net.Error, no handler consumes the exception (it reaches the built-in tail handler) and 10 s and %d reads later the channel is still open and its read loop still running", probe.nReads))
+			rig.T.Close()
+			rig.Dispose()
+			return
+		}
 		if !rig.T.IsClosed() && onlySwallowed {
 			viol("fatal-read-failure-did-not-end-the-channel", "every transport read fails with a non-timeout net.Error (wrapped by the decoding handler, swallowed by the application's exception handler) and 10 s later the channel is still open and its read loop still running")
 			rig.T.Close()
@@ -517,7 +561,7 @@ func c05Trial(c *core.Ctx, id string, idx int) {
 			// a Close issued by the framework itself (read loop end => nil, sender failure => the write error)
 			ok := probe.inactive[0] == nil
 			for i, kd := range kinds {
-				if (kd == "sender-failure" || kd == "read-failure" || kd == "read-failure-neterr-swallowed") && errors.Is(probe.inactive[0], errs[i]) {
+				if (kd == "sender-failure" || kd == "read-failure" || kd == "read-failure-neterr-swallowed" || kd == "read-timeout-unhandled") && errors.Is(probe.inactive[0], errs[i]) {
 					ok = true
 				}
 			}
